@@ -80,6 +80,10 @@ def build(case):
         if rng.random() < 0.1 or (run_at is not None and run_at <= i < run_at + case['run']):
             row = row[:rng.randrange(11, 40)]        # short row: slices come back short, never an error
         recs.append(row)
+        if rng.random() < 0.08:
+            # every table of a real extract ends with its own trailer row: not a row of any table, and NOT the end of the
+            # index (only the IP0000T1 trailer is)
+            recs.append(f'TRAILER RECORD {rng.choice(tables)}  {rng.randrange(10 ** 8):08d}')
         resolved = row[11:19] if case['expanded'] else index.get(row[8:11])
         if resolved == case['table'] and lay:
             off = 0 if case['expanded'] else 8
@@ -117,6 +121,43 @@ def impl_eval(case):
         elif rows != expected:
             k = next((i for i, (a, b) in enumerate(zip(rows, expected)) if a != b), min(len(rows), len(expected)))
             why = f'{len(rows)} rows returned, {len(expected)} expected; first difference at row {k}'
+        elif case.get('cfgfile'):
+            # the COMMAND entry point with --config-file naming the layout (alone, or with a CARDUTIL_CONFIG directory
+            # that holds another layout for the same table: the file named on the command line takes precedence)
+            import contextlib
+            import copy
+            import json
+            import os
+            import shutil
+            import tempfile
+            from cardutil.config import config as pkgconf
+            d = tempfile.mkdtemp(prefix='verif_c18_')
+            saved = os.environ.get('CARDUTIL_CONFIG')
+            try:
+                mine = copy.deepcopy(pkgconf)
+                mine['mci_parameter_tables'] = {case['table']: lay}
+                json.dump(mine, open(os.path.join(d, 'my.json'), 'w'))
+                open(os.path.join(d, 'in.bin'), 'wb').write(data)
+                if case['cfgfile'] == 'env':
+                    site = copy.deepcopy(pkgconf)
+                    site['mci_parameter_tables'] = {case['table']: {'other': {'start': 19, 'end': 21}}}
+                    os.mkdir(os.path.join(d, 'site'))
+                    json.dump(site, open(os.path.join(d, 'site', 'cardutil.json'), 'w'))
+                    os.environ['CARDUTIL_CONFIG'] = os.path.join(d, 'site')
+                with contextlib.redirect_stdout(io.StringIO()):
+                    mci_ipm_param_to_csv.cli_run(in_filename=os.path.join(d, 'in.bin'), table_id=case['table'],
+                                                 out_filename=os.path.join(d, 'out.csv'), in_encoding=case['codec'],
+                                                 out_encoding='utf-8', no1014blocking=not case['b'],
+                                                 expanded=bool(case['expanded']), config_file=os.path.join(d, 'my.json'))
+                got = list(csv.DictReader(open(os.path.join(d, 'out.csv'), encoding='utf-8', newline='')))
+                if got != [{k: v for k, v in e.items()} for e in expected]:
+                    why = 'CSV written by the mci_ipm_param_to_csv command with --config-file differs from the expected rows'
+            finally:
+                if saved is None:
+                    os.environ.pop('CARDUTIL_CONFIG', None)
+                else:
+                    os.environ['CARDUTIL_CONFIG'] = saved
+                shutil.rmtree(d, ignore_errors=True)
         elif case.get('csv'):
             out = io.StringIO(newline='')
             cfg = {case['table']: lay}
@@ -171,6 +212,10 @@ def explore(run, tier):
             t = rng.choice(tables)
             for expanded in (0, 1):
                 cases.append(dict(base, expanded=expanded, table=t, layout=lay))
+            if i % 12 == 0:
+                plain = dict(base, codec='latin_1')       # text free of characters the default CSV encoding lacks
+                cases.append(dict(plain, expanded=i % 24 // 12, table=t, layout=lay, cfgfile='file'))
+                cases.append(dict(plain, expanded=1 - i % 24 // 12, table=t, layout=lay, cfgfile='env'))
         if i % 100 == 7:
             cases.append(dict(base, expanded=i % 2, run=[1500, 2600][(i // 100) % 2]))
         if i % 10 == 0:
